@@ -1,4 +1,5 @@
 import ZarrsModel.Model.Grid
+import ZarrsModel.Model.GridApi
 import ZarrsModel.Driver.Proto
 /- driver handlers for C10 -/
 namespace Zarrs.DriverC10
@@ -18,6 +19,64 @@ def showSubset (s : Subset) : String := showNl s.start ++ "+" ++ showNl s.shape
 def so {α} (f : α → String) : Option α → String
   | some x => f x
   | none => "none"
+
+/-! ### API-coverage additions: `_unchecked` trait methods, the regular grid's own accessors and `From` conversions,
+the grid-related `Array` methods -/
+
+def soe {α} (f : α → String) : Option α → String
+  | some x => f x
+  | none => "err"
+
+def handleApi (l : Line) (verb : String) (g : Grid) (arr : Shape) : Option String := do
+  let d := g.length
+  match verb with
+  | "ugridshape" =>
+    -- both implementations `assert_eq!(array_shape.len(), self.dimensionality())`
+    if arr.length != d then pure "panic" else pure ("val " ++ so showNl (g.gridShape arr))
+  | "uchunk" =>
+    let c ← l.nl "c"
+    pure ("val origin=" ++ so showNl (g.chunkOrigin c) ++ " shape=" ++ so showNl (g.chunkShape c) ++
+      " shapenz=" ++ so showNl (g.chunkShape c) ++ " subset=" ++ so showSubset (g.subset c))
+  | "uelem" =>
+    let i ← l.nl "i"
+    pure ("val cidx=" ++ so showNl (g.chunkIndices i) ++ " eidx=" ++ so showNl (g.chunkElementIndices i))
+  | "regular" =>
+    -- `RegularChunkGrid::chunk_shape{,_u64}` and the `From`/`TryFrom` conversions to `ChunkGrid`: all the same grid
+    let cs ← parseNl ((← l.get "grid").drop 1).toString
+    let raw ← l.nl "raw"
+    let gs := if arr.length != d then "err" else so showNl (g.gridShape arr)
+    let fromarr := if cs.length == 1 || cs.length == 2 then gs ++ "/" ++ gs else "skip"
+    let tf := if raw.any (· == 0) then "err" else
+      if arr.length != raw.length then "err" else so showNl ((Grid.regular raw).gridShape arr)
+    pure ("val cs=" ++ showNl cs ++ " u64=" ++ showNl cs ++ " toarr=" ++ showNl cs ++ " fromvec=" ++ gs ++ " fromslice=" ++ gs ++
+      " fromshape=" ++ gs ++ " fromarr=" ++ fromarr ++ " tryfrom=" ++ tf)
+  | "agridshape" =>
+    match ArrGrid.new? g arr with
+    | none => pure "err-build"
+    | some a =>
+      pure ("val " ++ so showNl a.chunkGridShape ++ " all=" ++ showSubset a.subsetAll ++ " dim=" ++ toString a.shape.length ++
+        " gdim=" ++ toString a.grid.length ++ " shape=" ++ showNl a.shape)
+  | "achunk" =>
+    match ArrGrid.new? g arr with
+    | none => pure "err-build"
+    | some a =>
+      let c ← l.nl "c"
+      pure ("val origin=" ++ soe showNl (a.chunkOrigin c) ++ " shape=" ++ soe showNl (a.chunkShape c) ++
+        " usize=" ++ soe showNl (a.chunkShape c) ++ " repr=" ++ soe showNl (a.chunkShape c) ++
+        " subset=" ++ soe showSubset (a.chunkSubset c) ++ " bounded=" ++ soe showSubset (a.chunkSubsetBounded c))
+  | "aregion" =>
+    match ArrGrid.new? g arr with
+    | none => pure "err-build"
+    | some a =>
+      let r : Subset := ⟨← l.nl "start", ← l.nl "shape"⟩
+      pure ("val " ++ soe (so showSubset) (a.chunksInArraySubset r))
+  | "achunks" =>
+    match ArrGrid.new? g arr with
+    | none => pure "err-build"
+    | some a =>
+      let r : Subset := ⟨← l.nl "start", ← l.nl "shape"⟩
+      pure ("val subset=" ++ soe showSubset (a.chunksSubset r) ++ " bounded=" ++ soe showSubset (a.chunksSubsetBounded r))
+  | _ => none
 
 def handle (l : Line) : Option String := do
   let verb ← l.verbs[1]?
@@ -51,6 +110,6 @@ def handle (l : Line) : Option String := do
     let r : Subset := ⟨← l.nl "start", ← l.nl "shape"⟩
     if r.rank != d || arr.length != d then pure "val err" else
     pure ("val " ++ so showSubset (g.chunksSubset r))
-  | _ => none
+  | other => handleApi l other g arr
 
 end Zarrs.DriverC10
